@@ -3,7 +3,7 @@ Functions under contract: tainted::to_opaque (rlbox.hpp:1073-1076), from_opaque 
 (rlbox_types.hpp:7-19), sandbox_reinterpret_cast / sandbox_const_cast / sandbox_static_cast
 (rlbox_stdlib.hpp:39-98)."""
 from vlib.unit import Unit, Inst, find_func
-from .common import cs, PRE_GHOST, CXX_INTS
+from .common import cs, PRE_GHOST, CXX_INTS, trait_inst
 from .C03 import REGIONS, OBJVIEW, NOCTX_LEAF, _is_named
 
 PROP = 'C20'
@@ -139,6 +139,15 @@ def units(tier):
                   ('static', 'unsigned long', 'unsigned long long', 'tainted'), ('static', 'long', 'short', 'tainted_volatile')]
     for c in casts:
         insts.append(cast_inst(*c, tier))
+    # an opaque value travels through callback signatures in place of the tainted value (register_callback reinterpret_casts the
+    # function pointer), so both wrappers must be passed the same way by the C++ ABI: trivially copyable and destructible, same size
+    for t in ['int', 'int*']:
+        nm = t.replace('*', 'ptr')
+        insts.append(trait_inst('c20_opaque_and_tainted_%s_share_calling_convention' % nm, PROP,
+                                '(std::is_trivially_copyable_v<tainted_opaque<%s, vsbx>> && std::is_trivially_destructible_v<tainted_opaque<%s, vsbx>> && '
+                                'std::is_trivially_copyable_v<tainted<%s, vsbx>> && std::is_trivially_destructible_v<tainted<%s, vsbx>> && '
+                                'sizeof(tainted_opaque<%s, vsbx>) == sizeof(tainted<%s, vsbx>) && alignof(tainted_opaque<%s, vsbx>) == alignof(tainted<%s, vsbx>))' % ((t,) * 8), 1,
+                                'opaque_and_tainted_are_passed_the_same_way', tier))
     return [Unit('C20_opaque_casts', insts), Unit('C20_struct_opaque', struct_opaque_insts(tier), includes=('rlbox.hpp', 'vsbx.hpp', 'vstructs.hpp'))]
 
 
